@@ -28,7 +28,8 @@ CONSTANTS Slates,        \* slate names, e.g. {"s1","s2"}
           UseSelf,       \* w1 may receive its own slates (self-send), also into its second account
           FundAcct2,     \* w1 starts with a second account (a1 / "acct1") that holds NFund coinbases too
           UseBuild,      \* owner::build_output and owner::create_mwixnet_req (second reservation kind) on w1
-          NChanges       \* numbers of change outputs a send may ask for (a set, e.g. {1} or {1, 2})
+          NChanges,      \* numbers of change outputs a send may ask for (a set, e.g. {1} or {1, 2})
+          QuietW2        \* TRUE: the peer wallet w2 does nothing (self-send configurations: everything happens in w1)
 
 VARIABLES st, hv, net, hist, mids   \* mids: the intermediate persistent states of the last step
 vars == <<st, hv, net, hist, mids>>
@@ -399,13 +400,14 @@ ForeignCoinbaseKey(k) ==
 \* the victim's own S1 slate is delivered to its own foreign receive
 ForeignReceiveOwn(sl) == AdvCount < MaxAdv /\ ReceiveAct("w1", sl)
 
+Acting == IF QuietW2 THEN (DOMAIN st.w) \ {"w2"} ELSE DOMAIN st.w
 Next ==
   \/ \E sl \in Slates, amt \in Amounts : InitSendAct(sl, amt, FALSE, 0, "")
   \/ UseLate /\ \E sl \in Slates, amt \in Amounts : InitSendAct(sl, amt, TRUE, 0, "")
   \/ UseTtl /\ \E sl \in Slates, amt \in Amounts : InitSendAct(sl, amt, FALSE, 1, "")
   \/ UseAccounts /\ (CreateAccountAct \/ \E a \in {"a0", "a1"} : SetActiveAct(a)
                      \/ \E sl \in Slates, amt \in Amounts : InitSendAct(sl, amt, FALSE, 0, "default"))
-  \/ \E sl \in Slates : ReceiveAct("w2", sl) \/ PostAct(sl)
+  \/ \E sl \in Slates : (~QuietW2 /\ ReceiveAct("w2", sl)) \/ PostAct(sl)
   \/ UseSelf /\ \E sl \in Slates : ReceiveAct("w1", sl)
   \/ UseAccounts2 /\ (CreateAccount2Act \/ \E sl \in Slates : ReceiveActD("w2", sl, "acct1"))
   \/ \E sl \in Slates : \E m \in net : FinalizeAct(sl, m) \/ LockAct(sl, m)
@@ -415,13 +417,13 @@ Next ==
                                         \/ \E m \in net : FinalizeInvoiceAct(sl, m)
   \/ MineAct("") \/ TickAct
   \/ UseMineTo /\ (MineAct("w1") \/ CandidateAct \/ MineReuseAct)
-  \/ \E w \in DOMAIN st.w : RefreshAct(w)
+  \/ \E w \in Acting : RefreshAct(w)
   \/ MaxFork > 0 /\ \E d \in 1..MaxFork : \E keep \in SUBSET Mined(st) : ForkAct(d, keep)
-  \/ UseScan /\ ((~UseSelf /\ RestoreAct) \/ \E w \in DOMAIN st.w : \E del \in BOOLEAN : ScanAct(w, del))
+  \/ UseScan /\ ((~UseSelf /\ RestoreAct) \/ \E w \in Acting : \E del \in BOOLEAN : ScanAct(w, del))
   \/ UseDiverge /\ \E kind \in {"delete", "spent", "unspent", "lock"} : \E k \in DOMAIN st.w["w1"].outs : DivergeAct(kind, k)
-  \/ \E w \in WS : \E t \in DOMAIN st.w[w].txs :
+  \/ \E w \in WS \cap Acting : \E t \in DOMAIN st.w[w].txs :
         st.w[w].txs[t].acct = st.w[w].active /\ CancelAct(w, st.w[w].txs[t].id, "")
-  \/ UseCancelBySlate /\ \E w \in WS, sl \in Slates : CancelAct(w, -1, sl)
+  \/ UseCancelBySlate /\ \E w \in WS \cap Acting, sl \in Slates : CancelAct(w, -1, sl)
   \/ UseAdv /\ \E sl \in Slates : ForeignFinalizeBogus(sl) \/ ForeignReceiveOwn(sl) \/ ForeignFinalizeExpired(sl)
   \/ UseAdv /\ \E k \in DOMAIN st.w["w1"].outs : ForeignCoinbaseKey(k)
   \/ UseAdv /\ \E sl \in Slates, dest \in {"", "acct1"} : ForeignReceiveBad(sl, dest)
